@@ -1,0 +1,14 @@
+//go:build verif
+
+package common
+
+// VerifHook, when set by the verification harness, is called at every
+// scheduling point (just before a lock is acquired).
+var VerifHook func(obj any, op string)
+
+// VerifPoint marks a scheduling point for the verification harness.
+func VerifPoint(obj any, op string) {
+	if h := VerifHook; h != nil {
+		h(obj, op)
+	}
+}
